@@ -2930,10 +2930,12 @@ fn write_reference_immediately(
 
 /// Compute reverse complement of a sequence
 fn reverse_complement_sequence(seq: &[u8]) -> Vec<u8> {
-    use crate::kmer::reverse_complement;
+    // Only A/C/G/T (codes 0..=3) are complemented; N and the other IUPAC codes keep their
+    // value, exactly as the decompressor (and C++ AGC: `(*p < 4) ? 3 - *p : *p`) undoes it.
+    // Going through kmer::reverse_complement mapped every code >= 4 to 4 (N).
     seq.iter()
         .rev()
-        .map(|&base| reverse_complement(base as u64) as u8)
+        .map(|&base| if base < 4 { 3 - base } else { base })
         .collect()
 }
 
